@@ -65,6 +65,75 @@ def sa_bases(env, style):
             ("pre-joined P.o filtered on it", lambda: s().join(P.o).where(O.n == 5), "join:o"), ("ordered desc", lambda: s().order_by(P.id.desc()), "order"),
             ("pre-joined W via P.w then W.o", lambda: s().outerjoin(P.w).outerjoin(W.o), "join:w")]
 
+def single_child_db(db):
+    """the same database with at most ONE kid and ONE tag per parent: navigating THROUGH such a collection (kids/x eq 2 - the backends join) then
+    denotes the same parents as kids/any(k: k/x eq 2), and no join multiplies a row"""
+    import copy
+    d = copy.deepcopy(db)
+    seen, kids = set(), []
+    for k in d["k"]:
+        if k["p_id"] not in seen:
+            seen.add(k["p_id"]); kids.append(k)
+    d["k"] = kids
+    seen, pt = set(), []
+    for (p, t) in d["p_tags"]:
+        if p not in seen:
+            seen.add(p); pt.append((p, t))
+    d["p_tags"] = pt
+    return d
+
+# (filter as applied, the filter whose reference semantics it has on a single-child database)
+PROJ_FILTERS = [("a gt 0", None), ("o/n eq 5", None), ("o/n eq null or a eq 2", None), ("kids/any(k: k/x eq 2)", None), ("not kids/any()", None), ("tags/all(t: t/label eq 'l')", None),
+                ("kids/x eq 2", "kids/any(k: k/x eq 2)"), ("kids/x gt 0 and a ge 0", "kids/any(k: k/x gt 0) and a ge 0"), ("tags/label eq 'l'", "tags/any(t: t/label eq 'l')"),
+                ("kids/x eq 2 or a eq 3", "kids/any(k: k/x eq 2) or a eq 3"), ("kids/o/name eq 'x'", "kids/any(k: k/o/name eq 'x')")]
+
+def projection_runs(ctx, db, tally, viol):
+    """base queries that SELECT A NON-UNIQUE COLUMN (the rows of the base are not distinct): the result is compared as a multiset with the
+    column values of the base rows that satisfy the filter"""
+    from odata_query.django import apply_odata_query as dj_apply
+    from odata_query.sqlalchemy import apply_odata_query as sa_apply, apply_odata_core as sa_core
+    from odata_query import exceptions as oex
+    d1 = single_child_db(db)
+    rc.load(d1)
+    denv = dbenv.django_env(); senv = dbenv.sa_env()
+    sa = senv["sa"]; P = senv["P"]; t = P.__table__; DP = denv["P"]
+    sat = sat_ids(d1, sorted({sp or f for f, sp in PROJ_FILTERS}))
+    srow = {r["id"]: r["s"] for r in d1["p"]}
+    def run_sa(stmt):
+        with senv["engine"].connect() as c:
+            return [r[0] for r in c.execute(stmt).fetchall()]
+    bases = [("sa-orm", "select(P.s)", lambda f: run_sa(sa_apply(sa.select(P.s), f))),
+             ("sa-orm", "select(P.s, P.a) ordered", lambda f: run_sa(sa_apply(sa.select(P.s, P.a).order_by(P.id), f))),
+             ("sa-legacy", "query(P.s)", lambda f: [r[0] for r in sa_apply(oc.sa_session().query(P.s), f).all()]),
+             ("sa-core", "select(t.c.s)", lambda f: run_sa(sa_core(sa.select(t.c.s), f))),
+             ("django", "values_list('s', flat=True)", lambda f: list(dj_apply(DP.objects.values_list("s", flat=True), f))),
+             ("django", "values('s')", lambda f: [r["s"] for r in dj_apply(DP.objects.values("s"), f)])]
+    for f, sp in PROJ_FILTERS:
+        want_set, excl = sat[sp or f]
+        if excl:
+            continue
+        want = collections.Counter(srow[i] for i in want_set)
+        for backend, bname, fn in bases:
+            if backend == "sa-core" and "/" in f:
+                continue
+            ctx.evaluations += 1
+            try:
+                got = collections.Counter(fn(f))
+            except (oex.ODataException, NotImplementedError) as e:
+                if sp is not None:
+                    tally[f"{backend}:projection:refused-collection-path"] += 1; continue    # navigating through a collection is not OData: a refusal is fine
+                viol.append((backend, bname, f, f"raised {type(e).__name__}: {str(e)[:100]}")); continue
+            except Exception as e:  # noqa
+                if oc.canon(e).startswith("env:OperationalError") and rc.same_table_twice(f, "P"):
+                    tally[f"{backend}:KF-same-table-twice"] += 1; continue
+                viol.append((backend, bname, f, f"raised {type(e).__name__}: {str(e)[:100]}")); continue
+            if got != want:
+                viol.append((backend, "projection base " + bname + " (at most one child per parent)", f,
+                             f"returned the values {sorted(got.elements(), key=repr)[:14]} but the base rows that satisfy the filter have {sorted(want.elements(), key=repr)[:14]}"))
+            else:
+                tally[f"{backend}:projection:" + bname] += 1
+    rc.load(db)
+
 def dj_ids(qs, ordered=False):
     ids = list(qs.values_list("id", flat=True))
     return ids if ordered else sorted(set(ids))
@@ -173,6 +242,7 @@ def run(ctx):
                             viol.append((f"sa-{style}", bname, f, f"table{tbl}joined {n_join} times: {sql[-200:]}"))
                             continue
                     tally[f"sa-{style}:" + bname] += 1
+        projection_runs(ctx, db, tally, viol)
         # the SAME filter text on different root models in ONE process: the relation `ps` exists on Tag (many-to-many), O and W (two different foreign keys),
         # `kids` / `emps` elsewhere; what was compiled for one model must not be reused for another
         shared = ["ps/any(q: q/a gt 0)", "ps/any()", "ps/all(q: q/a ge 0)", "not ps/any(q: q/a gt 0)", "ps/any(q: q/a gt 0) and id gt 1"]
